@@ -105,6 +105,11 @@ def _do_write(path, ext, entry, nfr, fo, seed):
     import mdtraj as md
     from vlib.refmodels import writers
     t = _traj(nfr, 4, seed)
+    if entry.endswith("(Path)"):
+        # the documented argument type is "path-like": the same call with a pathlib.Path instead of a str
+        import pathlib
+        path = pathlib.Path(path)
+        entry = entry[:-6]
     try:
         if entry == "save":
             t.save(path, force_overwrite=fo)
@@ -311,10 +316,10 @@ def run(ctx):
     jobs = []
     for ext in SAVE_EXTS:
         pres = ["valid", "longer", "garbage"]
-        for pre, nfr, entry, fo in itertools.product(pres, (1, 3), ("save", "open"), (False, True)):
-            if entry == "open" and ext in RESTART and nfr > 1:
+        for pre, nfr, entry, fo in itertools.product(pres, (1, 3), ("save", "open", "save(Path)", "open(Path)"), (False, True)):
+            if entry.startswith("open") and ext in RESTART and nfr > 1:
                 continue  # the restart file objects hold one frame; numbered output is a feature of save()
-            if ext in RESTART and nfr > 1 and entry == "save":
+            if ext in RESTART and nfr > 1 and entry.startswith("save"):
                 jobs.append((ext, pre, nfr, entry, fo, "base", ctx.seed, ctx.scratch))
                 for k in range(1, nfr + 1):
                     for sub in itertools.combinations(range(nfr), k):
@@ -352,7 +357,7 @@ def run(ctx):
         "write_cases": n, "read_entry_point_calls": rn,
         "refusals_that_left_new_sibling_files(recorded,not judged)": int(siblings),
         "overwrites_byte_identical_to_fresh": int(bytes_equal),
-        "axes": {"ext": SAVE_EXTS, "pre": ["valid", "longer", "garbage"], "frames": [1, 3], "entry": ["save", "open"],
+        "axes": {"ext": SAVE_EXTS, "pre": ["valid", "longer", "garbage"], "frames": [1, 3], "entry": ["save", "open", "save(Path)", "open(Path)"],
                  "force_overwrite": [False, True], "read_ext": READ_EXTS, "repo_files": TOPFILES},
     }
 
